@@ -444,7 +444,11 @@ func (rn *runner) run(in *input) {
 	if !plok {
 		st.ImplFailures = append(st.ImplFailures, map[string]interface{}{"what": "SignaturePayload panicked", "input": in})
 	}
-	msgSame := len(msgs) == 1 && bytes.Equal(msgs[0], pl)
+	// every message the signer was asked to sign is the signature payload (normally exactly one)
+	msgSame := len(msgs) >= 1
+	for _, m := range msgs {
+		msgSame = msgSame && bytes.Equal(m, pl)
+	}
 	if in.Kind == kindNil || in.Kind == kindFails {
 		msgSame = true
 	}
@@ -770,7 +774,7 @@ func main() {
 	rn := &runner{w: cv.NewWriter(*out, "C01", header, "case", "mismatches", shards), st: st, seen: map[string]bool{},
 		cur: filepath.Join(*out, "current_case.json"), judgeEvery: 23, judgedKeys: map[string]bool{}}
 	if *tier == "thorough" {
-		rn.judgeEvery = 3
+		rn.judgeEvery = 5
 	}
 
 	if *replay != "" {
@@ -947,7 +951,7 @@ func main() {
 	wantPer := 2
 	budget := 4000
 	if thorough {
-		wantPer = 6
+		wantPer = 4
 		budget = 400000
 	}
 	for mode := 0; mode < 3; mode++ {
@@ -1029,7 +1033,7 @@ func main() {
 	// --- 8. random transactions ---
 	nRand := 260
 	if thorough {
-		nRand = 6000
+		nRand = 3000
 	}
 	for i := 0; i < nRand; i++ {
 		mode := r.Intn(4)
